@@ -202,6 +202,12 @@ def files(tmp):
     write("f_importerr", d1, "verif_plugin_imp", "x", holds="importerr",
           raw="import no_such_module_for_nanite_verif\n")
     out["f_missing"] = (d1 / "verif_plugin_missing.py", "missing")
+    # a sound model under a name python does not import from
+    for fid, nm in (("f_txt", "verif_plugin_txt.py.txt"),
+                    ("f_nosuffix", "verif_plugin_nosuffix")):
+        pth = d1 / nm
+        pth.write_text(MODEL_SRC % {"key": "verif_file9", "extra": ""})
+        out[fid] = (pth, "importerr")
     # another directory, SAME file name and function name as f_ok, other
     # model key and OTHER CODE (twice the force: a revised model)
     write("f_samestem", d3, "verif_plugin_one", "verif_file5",
@@ -347,15 +353,37 @@ def defaults_ok(md, mod):
     from nanite.model.core import ANCILLARY_COMMON
     try:
         ok = callable(md.model) and callable(md.residual)
-        ok = ok and "default_modeling_wrapper" in md.model.__qualname__
-        ok = ok and "default_residuals_wrapper" in md.residual.__qualname__
+        # the default wrappers, judged by what they do: the module's own
+        # function on approach-ordered data, residuals = data - model
+        p = md.get_parameter_defaults()
+        x = np.linspace(2e-6, -1e-6, 30)
+        for xx in (x, x[::-1].copy()):
+            want_f = mod.model_func(np.sort(xx)[::-1].copy(),
+                                    **p.valuesdict())
+            if xx[0] < xx[-1]:
+                want_f = want_f[::-1]
+            got_f = np.asarray(md.model(p, xx.copy()))
+            ok = ok and bool(np.array_equal(got_f, want_f))
+            ok = ok and bool(np.all(np.asarray(
+                md.residual(p, xx.copy(), want_f.copy(), 0)) == 0))
+        anc_before = list(getattr(mod, "parameter_anc_keys", []))
         for i, k in enumerate(mod.parameter_keys):
             ok = ok and md.get_parm_name(k) == mod.parameter_names[i]
             ok = ok and md.get_parm_unit(k) == mod.parameter_units[i]
         want = list(ANCILLARY_COMMON.keys())
         if hasattr(mod, "compute_ancillaries"):
-            want += list(mod.parameter_anc_keys)
+            want += list(anc_before)
+        # (a query; asking twice gives the same answer and leaves the module
+        # as it was)
         ok = ok and md.get_anc_parm_keys() == want
+        ok = ok and md.get_anc_parm_keys() == want
+        ok = ok and list(getattr(mod, "parameter_anc_keys", [])) == anc_before
+        if hasattr(mod, "compute_ancillaries"):
+            for i, k in enumerate(anc_before):
+                if k in mod.parameter_keys:
+                    continue     # (a fit parameter of the same key wins)
+                ok = ok and md.get_parm_name(k) == mod.parameter_anc_names[i]
+                ok = ok and md.get_parm_unit(k) == mod.parameter_anc_units[i]
         ok = ok and md.model_key == mod.model_key
         return bool(ok)
     except BaseException as exc:
